@@ -2712,7 +2712,11 @@ func (data *Data) DeleteShardGroup(database, policy string, id uint64, deletedAt
 	for i := range rpi.ShardGroups {
 		if rpi.ShardGroups[i].ID == id {
 			if deleteType == CancelDelete {
-				// mark shardGroup as no deleted
+				// mark shardGroup as no deleted - unless a write has created a live group over its span in the
+				// meantime: two live groups of one engine type must not overlap, the newer one keeps the span
+				if rpi.ShardGroups[i].Deleted() && rpi.overlapsLiveShardGroup(&rpi.ShardGroups[i]) {
+					break
+				}
 				rpi.ShardGroups[i].DeletedAt = time.Time{}
 			} else {
 				// mark shardGroup as deleted
